@@ -970,6 +970,14 @@ class ServerSSM(SSM):
             self.response(abort)
             return
 
+        # a request starts with its first segment, any other one belongs to
+        # a transaction that is gone
+        if apdu.apduSeq != 0:
+            if _debug: ServerSSM._debug("    - not the first segment")
+            abort = self.abort(AbortReason.invalidApduInThisState)
+            self.response(abort)
+            return
+
         # save the request and set the segmentation context
         self.set_segmentation_context(apdu)
 
